@@ -216,8 +216,20 @@ def nows(s):
 
 
 def split_params(p):
-    """top-level comma split of a parameter list (the wrappers never contain function-pointer parameters in this grammar)"""
-    return [x.strip() for x in p.split(",")] if p.strip() else []
+    """top-level comma split of a parameter list: commas inside <>, () and [] belong to one parameter (`CTup2<uint32_t, uint64_t> t`)"""
+    out, cur, depth = [], "", 0
+    for ch in p:
+        if ch in "<([":
+            depth += 1
+        elif ch in ">)]":
+            depth -= 1
+        if ch == "," and depth == 0:
+            out.append(cur.strip()); cur = ""
+        else:
+            cur += ch
+    if cur.strip():
+        out.append(cur.strip())
+    return out
 
 
 # ------------------------------------------------------------------------------------------------ mock driver (C)
@@ -226,13 +238,14 @@ def val(kind, pos):
         "u8": "(uint8_t)(7 + %d)" % pos, "u32": "(uint32_t)(1000 + %d)" % pos, "usize": "(uintptr_t)(5000 + %d)" % pos,
         "i64": "(int64_t)(-9 - %d)" % pos, "f64": "(1.5 + %d)" % pos, "bool": "(%d %% 2 == 0)" % pos,
         "pair": "mk_pair(10 + %d, 20 + %d)" % (pos, pos), "slice": "mk_slice(buf + %d, 3 + %d)" % (pos, pos),
+        "tup": "mk_tup(30 + %d, 40 + %d)" % (pos, pos),
         "cb": "mk_cb((void *)(uintptr_t)(0x100 + %d))" % pos, "ptr": "((const struct Pair *)&gp[%d])" % pos,
         "vptr": "((void *)(uintptr_t)(0x200 + %d))" % pos, "mptr": "(buf + 8 + %d)" % pos,
     }[kind]
 
 
 def eq(kind, a, b):
-    if kind == "pair":
+    if kind in ("pair", "tup"):
         return "(%s.a == %s.a && %s.b == %s.b)" % (a, b, a, b)
     if kind == "slice":
         return "(%s.data == %s.data && %s.len == %s.len)" % (a, b, a, b)
@@ -252,6 +265,7 @@ static const void *g_cont;
 static bool cbfn(void *c, struct Pair p) { (void)c; (void)p; return true; }
 static struct Pair mk_pair(uint32_t a, uint64_t b) { struct Pair p; p.a = a; p.b = b; return p; }
 static struct CSliceRef_u8 mk_slice(const uint8_t *d, uintptr_t l) { struct CSliceRef_u8 s; s.data = d; s.len = l; return s; }
+static struct CTup2_u32__u64 mk_tup(uint32_t a, uint64_t b) { struct CTup2_u32__u64 t; t.a = a; t.b = b; return t; }
 static PairCallback mk_cb(void *c) { PairCallback k; k.context = c; k.func = cbfn; return k; }
 static void mock_inst_drop(void *p) { lg(4); lg(p == (void *)&inst_cell); }
 static const void *mock_clone(const void *p) { lg(1); lg(p == (const void *)&ctx_cell[0]); return &ctx_cell[1]; }
@@ -582,6 +596,7 @@ static const void *g_cont;
 static bool cbfn(void *c, Pair p) { (void)c; (void)p; return true; }
 static Pair mk_pair(uint32_t a, uint64_t b) { Pair p; p.a = a; p.b = b; return p; }
 static CSliceRef<uint8_t> mk_slice(const uint8_t *d, uintptr_t l) { CSliceRef<uint8_t> s; s.data = d; s.len = l; return s; }
+static CTup2<uint32_t, uint64_t> mk_tup(uint32_t a, uint64_t b) { CTup2<uint32_t, uint64_t> t; t.a = a; t.b = b; return t; }
 static PairCallback mk_cb(void *c) { PairCallback k; k.context = c; k.func = cbfn; return k; }
 static void mock_inst_drop(void *p) { lg(4); lg(p == (void *)&inst_cell); }
 static const void *mock_clone(const void *p) { lg(1); lg(p == (const void *)&ctx_cell[0]); return &ctx_cell[1]; }
